@@ -530,3 +530,99 @@ pub fn overshoot() -> String {
         t0.elapsed().as_secs_f64()
     )
 }
+
+/// Self-test of the one hook that touches live state: the snapshot of the sync cache
+/// drains both op queues and re-sends every op. Every history up to `depth` is run
+/// twice, once with a snapshot after every operation and once with none; all
+/// observations and the final canonical state must be identical. Also checks the
+/// footprint claims of the deterministic hashers against the real sketch.
+pub fn selftest(depth: usize) -> String {
+    let t0 = Instant::now();
+    let mut histories = 0u64;
+    let mut problems: Vec<String> = Vec::new();
+    // hashers
+    {
+        use mini_moka::verif::SketchFacade;
+        let mut sk = SketchFacade::new();
+        sk.ensure_capacity(128);
+        let foot = |h: u64| (0..4u8).map(|d| sk.counter_of(h, d)).collect::<Vec<_>>();
+        let sp = make_hasher(HashKind::Spread);
+        for i in 0..8 {
+            for j in 0..i {
+                if foot(sp.table[i]).iter().any(|c| foot(sp.table[j]).contains(c)) {
+                    problems.push(format!("spread hasher: keys {i} and {j} share a sketch counter"));
+                }
+            }
+            if shard_of(sp.table[i], 4) != i % 4 {
+                problems.push(format!("spread hasher: key {i} not in shard {}", i % 4));
+            }
+        }
+        let ss = make_hasher(HashKind::SameShard);
+        if (0..8).any(|i| shard_of(ss.table[i], 4) != shard_of(ss.table[0], 4)) {
+            problems.push("sameshard hasher: keys in different shards".into());
+        }
+        let co = make_hasher(HashKind::Collide);
+        if (0..8).any(|i| co.table[i] != co.table[0]) {
+            problems.push("collide hasher: hashes differ".into());
+        }
+    }
+    let cfgs = [
+        "kind=S,cap=2,w=1,tti=2,keys=2,beyond=1,tick=1000,alpha=basic,A=2",
+        "kind=S,cap=1,w=0,ttl=2,keys=2,beyond=0,tick=200,alpha=basic,A=2",
+        "kind=S,cap=none,w=0,keys=2,beyond=1,tick=1000,alpha=inval,A=1",
+    ];
+    for spec in cfgs {
+        let cfg = Cfg::parse(spec);
+        let hasher = make_hasher(cfg.hash);
+        let alpha = alphabet(&cfg);
+        let mut idx = vec![0usize; depth];
+        'outer: loop {
+            let ops: Vec<Op> = idx.iter().map(|i| alpha[*i]).collect();
+            histories += 1;
+            let run = |with_snap: bool| -> (Vec<Obs>, u128) {
+                tracker().reset();
+                let mut sut = Sut::new(&cfg, hasher);
+                let mut obs = Vec::new();
+                let mut vid = 1;
+                for op in &ops {
+                    obs.push(sut.apply(&cfg, *op, vid));
+                    if let Op::Ins(..) = op {
+                        vid += 1;
+                    }
+                    if with_snap {
+                        let _ = sut.snapshot();
+                    }
+                }
+                let fp = impl_fp(&sut.snapshot(), sut.clock().now());
+                (obs, fp)
+            };
+            let a = run(true);
+            let b = run(false);
+            if a != b && problems.len() < 5 {
+                problems.push(format!("snapshot is not neutral on {}", witness(&cfg, &ops)));
+            }
+            // next history
+            let mut p = depth;
+            loop {
+                if p == 0 {
+                    break 'outer;
+                }
+                p -= 1;
+                idx[p] += 1;
+                if idx[p] < alpha.len() {
+                    break;
+                }
+                idx[p] = 0;
+            }
+        }
+    }
+    if !problems.is_empty() {
+        eprintln!("MACHINERY: selftest failed: {problems:?}");
+        std::process::exit(2);
+    }
+    format!(
+        "{{\"engine\":\"selftest\",\"spec\":\"snapshot neutrality, depth {depth}; hasher footprints\",\"states\":{histories},\"transitions\":{},\"depth_done\":{depth},\"capped\":false,\"outcomes\":1,\"viol_total\":0,\"violations\":[],\"samples\":[\"every history of depth {depth} run with and without snapshots: identical observations and final state\"],\"wall_s\":{:.3}}}",
+        histories * 2 * depth as u64,
+        t0.elapsed().as_secs_f64()
+    )
+}
